@@ -256,6 +256,9 @@ def _compare(i, op, a, b, node):
             return str_const(x)
         if is_z3(x) and x.sort() == es:
             return x
+        if es == Val and isinstance(x, (int, float)) and not isinstance(x, bool):
+            from .arrays import const_of
+            return const_of(Val, x)
         if es in (Str, Val):
             return x
         other = (b if ref is a else a)
